@@ -273,7 +273,11 @@ class Check:
                     tags[tg] = tags.get(tg, 0) + 1
             if t not in ("-", ""):
                 nontrivial.add(c)
-            pi = proj[op](i) if op in proj else i
+            if op in proj:
+                f = proj[op]
+                pi = f(c, i) if f.__code__.co_argcount == 2 else f(i)
+            else:
+                pi = i
             spec_bad = s != "-" and pi != s
             if i != m:
                 mism += 1
